@@ -54,7 +54,7 @@ MinOf(S)    == CHOOSE m \in S : \A n \in S : m <= n
 OobBefore(x, i) == \E j \in 1..Len(x.oob) : x.oob[j] <= i
 
 LblY0  == "Y0/client-and-server-derive-different-state-from-the-same-exchanges"
-LblY2  == "Y2/answer-depends-on-other-runs-in-the-database"
+LblY2  == "Y2/answer-changes-with-other-database-content-or-selection"
 LblY1x == "Y1/virtual-ecu-raised-instead-of-answering"
 LblY1r == "Y1/reply-where-silence-was-recorded"
 LblY1s == "Y1/silence-where-a-reply-was-recorded"
